@@ -135,8 +135,9 @@ class Program:
                 except SyntaxError as e:
                     raise AnalysisError(f"{name}: syntax error {e}")
                 self.modules[name] = ModuleInfo(name, _normalise(tree), src)
-        from .inline import fold_keyword_dicts, expand_star_calls, close_partials, expand_dispatch_tables, expand_value_lookups, expand_helper_comprehensions, propagate_record_fields, fold_unpack_temporaries, inline_unknown_helpers, propagate_attribute_aliases, unroll_literal_loops
+        from .inline import index_tail_enumerations, fold_keyword_dicts, expand_star_calls, close_partials, expand_dispatch_tables, expand_value_lookups, expand_helper_comprehensions, propagate_record_fields, fold_unpack_temporaries, inline_unknown_helpers, propagate_attribute_aliases, unroll_literal_loops
 
+        self.tail_enumerations = index_tail_enumerations({name: m.tree for name, m in self.modules.items()})
         self.star_calls = expand_star_calls({name: m.tree for name, m in self.modules.items()})
         self.folded_unpacks = fold_unpack_temporaries({name: m.tree for name, m in self.modules.items()})
         self.dispatch_tables = expand_dispatch_tables({name: m.tree for name, m in self.modules.items()})
